@@ -90,6 +90,10 @@ func genCase(r *kit.Rand, i int) []string {
 	if i%3 == 1 {
 		form = "b"
 	}
+	if i%6 == 5 {
+		form = "w" // stream -> window(count) -> alert: batches made by a real window node
+	}
+	win := 1 + r.Intn(3)
 	lv := bits3(r, 80)
 	rs := bits3(r, 50)
 	if r.Chance(1, 10) {
@@ -102,7 +106,7 @@ func genCase(r *kit.Rand, i int) []string {
 		scoDur = int64(kit.Pick(r, []int{1, 2, 5, 10, 1000}))
 	}
 	noRec := r.Chance(1, 4)
-	all := form == "b" && r.Chance(1, 3)
+	all := form != "s" && r.Chance(1, 3)
 	if form == "s" && r.Chance(1, 20) {
 		all = true // all() on a stream alert: documented as having no effect
 	}
@@ -148,6 +152,9 @@ func genCase(r *kit.Rand, i int) []string {
 	}
 	ops := []string{fmt.Sprintf("cfg form=%s lv=%s rs=%s sco=%d scodur=%d norec=%d all=%d flap=%d lo=%s hi=%s hist=%d",
 		form, lv, rs, b2i(sco), scoDur, b2i(noRec), b2i(all), b2i(flap), kit.F64(lo), kit.F64(hi), hist)}
+	if form == "w" {
+		ops[0] += fmt.Sprintf(" win=%d", win)
+	}
 
 	nG := 1 + r.Intn(3)
 	if r.Chance(1, 2) {
@@ -156,6 +163,9 @@ func genCase(r *kit.Rand, i int) []string {
 	size := 3 + r.Intn(14)
 	if i%11 == 0 {
 		size = 25 + r.Intn(30)
+	}
+	if form == "w" {
+		size *= 2
 	}
 	tm := int64(1_000_000_000_000) + int64(r.Intn(1000))
 	sd := scoDur * 1000 // ns
@@ -200,7 +210,7 @@ func genCase(r *kit.Rand, i int) []string {
 	// task restarts (per-ID state is restored from the topic): only where the last delivered event always carries the
 	// ID's current level, i.e. without flap suppression and without withheld recoveries (what a restart resumes at
 	// otherwise is C08's subject)
-	restarts := !flap && !noRec && r.Chance(1, 4)
+	restarts := form != "w" && !flap && !noRec && r.Chance(1, 4)
 	for k := 0; k < size; k++ {
 		g := r.Intn(nG)
 		gid := kit.Esc(gids[g])
@@ -208,7 +218,7 @@ func genCase(r *kit.Rand, i int) []string {
 		if restarts && k > 0 && r.Chance(1, 6) {
 			ops = append(ops, "restart")
 		}
-		if form == "s" {
+		if form == "s" || form == "w" {
 			ops = append(ops, fmt.Sprintf("p %s %d %s", gid, tm, nextVec(g)))
 			continue
 		}
